@@ -1,8 +1,8 @@
 #!/verif/.venv/bin/python
 # Replay of a solver counterexample against the unmodified code (no shims).
-# property=C10 kernel=step label=c10:retarget_minimal
+# property=C10 kernel=step label=c10:retarget_interval
 import sys
-sys.path[:0] = ["/repo/pulser-core", "/repo/pulser-simulation", "/verif"]
+sys.path[:0] = ['/repo' + "/pulser-core", '/repo' + "/pulser-simulation", "/verif"]
 from symx.replay import replay
-sys.exit(replay(check='checks.c10', kernel='step', shape={'own': {'clock': 1, 'local': True, 'slots': [], 'mod': True, 'pj': 'derived', 'targets_a': ['q0'], 'targets_b': ['q1']}, 'op': ['add_target', 'diff'], 'maxseq': True, 'nbarriers': 1},
-                assignment={'max_sequence_duration': 2, 'own.min_duration': 2, 'own.tr': 1, 'own.min_retarget': 1, 'own.fixed_retarget': 3}, label='c10:retarget_minimal'))
+sys.exit(replay(check='checks.c10', kernel='step', shape={'own': {'clock': 4, 'local': True, 'slots': [], 'mod': True, 'pj': 'custom', 'maxd': True, 'targets_a': ['q0'], 'targets_b': ['q1']}, 'op': ['add_target', 'diff'], 'maxseq': False, 'nbarriers': 1},
+                assignment={'own.min_duration': 3, 'own.max_duration': 3, 'own.tr': 2, 'own.pjt': 0, 'own.min_retarget': 5, 'own.fixed_retarget': 6}, label='c10:retarget_interval'))
